@@ -1,5 +1,5 @@
 From Coq Require Import Extraction ExtrOcamlBasic NArith List.
-From MV Require Import Base.PyStr Base.Res Sect.Slug Sect.SlugTables Gen.PyUnicodeSlug.
+From MV Require Import Base.PyStr Base.Res Refs.RUtil Refs.Anchors Sect.Slug Sect.SlugTables Sect.SlugIds Gen.PyUnicodeSlug.
 Extraction Language OCaml.
 Extraction "model.ml" N.succ N.to_nat render_slugs print_anchors default_slugify plugin_slugify
-  py_lower py_is_space py_is_word py_supported render_class plugin_class inline_title rev.
+  py_lower py_is_space py_is_word py_supported render_class plugin_class inline_title rev assign_ids.
